@@ -235,12 +235,18 @@ fn xbank(app: &mut App, from: &str, to: &str, coins: &[Coin]) -> anyhow::Result<
     }
 }
 // "lookalike d t": from the next init on, bank denom d is spelled exactly like the address of contract t
+// "tfdenom d u": from the next init on, bank denom d is the token-factory denom of user u: "factory/<address of u>/sub"
+static TF_D: std::sync::atomic::AtomicU64 = std::sync::atomic::AtomicU64::new(u64::MAX);
+static TF_U: std::sync::atomic::AtomicU64 = std::sync::atomic::AtomicU64::new(0);
 static LOOK_D: std::sync::atomic::AtomicU64 = std::sync::atomic::AtomicU64::new(u64::MAX);
 static LOOK_T: std::sync::atomic::AtomicU64 = std::sync::atomic::AtomicU64::new(0);
 fn denom_s(d: u128) -> String {
     use std::sync::atomic::Ordering::SeqCst;
     if d as u64 == LOOK_D.load(SeqCst) {
         return addr_s(LOOK_T.load(SeqCst) as u128);
+    }
+    if d as u64 == TF_D.load(SeqCst) {
+        return format!("factory/{}/sub", addr_s(TF_U.load(SeqCst) as u128));
     }
     // realistic spellings: an IBC denom with upper-case hex, a denom that differs from denom 0 only by letter case,
     // and one that has denom 0 as a proper prefix (bank denoms are case-sensitive, exact strings)
@@ -262,7 +268,11 @@ fn denom_id(s: &str) -> Option<u128> {
     if ld != u64::MAX && s == denom_s(ld as u128) {
         return Some(ld as u128);
     }
-    (0..64u128).find(|d| *d as u64 != ld && denom_s(*d) == s)
+    let td = TF_D.load(SeqCst);
+    if td != u64::MAX && s == denom_s(td as u128) {
+        return Some(td as u128);
+    }
+    (0..64u128).find(|d| *d as u64 != ld && *d as u64 != td && denom_s(*d) == s)
 }
 
 struct Cur<'a> {
@@ -1359,6 +1369,12 @@ pub fn serve() {
         let toks: Vec<&str> = line.split_whitespace().collect();
         let mut c = Cur { t: toks, i: 0 };
         let resp = match c.next() {
+            "tfdenom" => {
+                use std::sync::atomic::Ordering::SeqCst;
+                TF_D.store(c.num() as u64, SeqCst);
+                TF_U.store(c.num() as u64, SeqCst);
+                "ok".to_string()
+            }
             "proxies" => {
                 use std::sync::atomic::Ordering::SeqCst;
                 N_PROXIES.store(c.num() as u64, SeqCst);
